@@ -104,6 +104,13 @@ class UnquoteModel(object):
         it = self.loop.iter
         # for item in bits[1:]  where bits = string.split(b"%")
         ok = isinstance(it, ast.Subscript) and isinstance(it.slice, ast.Slice)
+        if not ok and isinstance(it, ast.Name):
+            # head, *rest = string.split(b"%") ... for item in rest
+            for n in walk_no_nested(self.fn):
+                if isinstance(n, ast.Assign) and isinstance(n.targets[0], (ast.Tuple, ast.List)) and isinstance(n.value, ast.Call) and isinstance(n.value.func, ast.Attribute) and n.value.func.attr == "split":
+                    elts = n.targets[0].elts
+                    if len(elts) == 2 and isinstance(elts[1], ast.Starred) and isinstance(elts[1].value, ast.Name) and elts[1].value.id == it.id:
+                        ok = True
         return ok
 
     def _walk(self, stmts, conds):
@@ -833,6 +840,8 @@ def opaque_uses(t, leaf, allowed_parent):
 def last_piece(x, sep):
     """base term when x is the text after the last `sep` of base: base.rsplit(sep, 1)[-1], base.split(sep)[-1],
     base.rpartition(sep)[2] (or [-1])"""
+    if x[0] == "item" and x[1][0] == "method" and x[1][3] and x[1][3][0] == ("const", sep) and isinstance(x[2], int):
+        x = ("sub", x[1], ("const", x[2]))  # `_, _, last = base.rpartition(sep)`: the unpacked position
     if x[0] != "sub" or x[1][0] != "method" or not x[1][3] or x[1][3][0] != ("const", sep):
         return None
     m, idx = x[1], x[2]
